@@ -346,6 +346,12 @@ def stepActionSearch (ts : List String) (impl : List (String × String)) (flaky 
     | _ => "SKIP unparsable")
   | _ => "SKIP unparsable"
 
+/-- verdict of a case whose requests are pinned to the older of two models: the class says so -/
+def markPinned (v : String) : String :=
+  match v.splitOn " " with
+  | "ok" :: cls :: rest => " ".intercalate ("ok" :: (cls ++ "-pinned-to-older-model") :: rest)
+  | _ => if v.startsWith "SPEC-VIOL " then v ++ " [store with two models; the AuthZEN request names the older one in the Openfga-Authorization-Model-Id header, the native requests in authorization_model_id]" else v
+
 def step (c impl : String) : String :=
   if impl.startsWith "setup-error" then "SKIP " ++ impl.take 60
   else
@@ -360,6 +366,14 @@ def step (c impl : String) : String :=
       | some (_, ts) =>
         match FgaCodec.tuples "tuples" ts with
         | none => "SKIP unparsable-tuples"
+        | some (_, "pin" :: kind :: ts) =>
+          markPinned (
+          if kind = "eval" then stepEval ts kvs flaky
+          else if kind = "evals" then stepEvals ts kvs flaky
+          else if kind = "ssearch" then stepSubjectSearch ts kvs flaky
+          else if kind = "rsearch" then stepResourceSearch ts kvs flaky
+          else if kind = "asearch" then stepActionSearch ts kvs flaky
+          else "SKIP unknown-kind")
         | some (_, kind :: ts) =>
           if kind = "eval" then stepEval ts kvs flaky
           else if kind = "evals" then stepEvals ts kvs flaky
